@@ -43,7 +43,7 @@ JUNK = {
 }
 SEED_KINDS = {
     "quick": ["empty", "torn:half", "junk-import"],
-    "thorough": ["empty", "torn:half", "torn:last", "junk-import", "junk-attr"],
+    "thorough": ["empty", "torn:half", "junk-import", "junk-attr"],
 }
 DEPTH = {"quick": 3, "thorough": 4}
 BOUND = {"quick": 1, "thorough": 2}
